@@ -9,7 +9,8 @@
    corollary at the end (the only statement here depending on the stdlib Reals axioms). *)
 From Coq Require Import Qround Qabs.
 From CNV Require Import Base.Prelude Base.Str Gen.CallDefaults Model.Call Model.Threshold Model.Baf
-  Spec.CallThreshold Proofs.CallNum Proofs.Call Proofs.CallThreshold Proofs.CallThresholdDefaults Gen.FnCall Proofs.FnCall.
+  Spec.Call Spec.CallThreshold Proofs.CallNum Proofs.Call Proofs.CallThreshold Proofs.CallThresholdDefaults
+  Proofs.CallScan Proofs.CallDoCall Gen.FnCall Gen.FnCallBaf Proofs.FnCall Proofs.FnCallBaf.
 
 Local Open Scope Z_scope.
 
@@ -122,6 +123,119 @@ Theorem C02_rescale_baf :
   forall p b t, ~ (p == 0)%Q -> rescale_baf p (Some b) = Some t -> (t * p + (1 # 2) * (1 - p) == b)%Q.
 Proof. exact rescale_baf_spec. Qed.
 
+(* ------------------------------------------------------------------------------------
+   The loop itself.  scan_row is a literal transcription of absolute_threshold's per-row body
+   (NaN test, for/else over enumerate(thresholds), `int(cnum * ref_copies / ploidy)` with the
+   FLOAT quotient `fdiv`, `int(np.ceil(...))` in the else branch; the statements are pinned
+   in tools/genspecs/c01.py).  Python's int / int is the correctly rounded quotient:
+   exact when the division is exact, relative error <= 2^-53 otherwise (fdiv_contract).
+   Under that contract the truncated float quotient is the integer quotient for every
+   dividend below 2^53 ... *)
+Theorem C02_float_quotient :
+  forall fdiv a b, fdiv_contract fdiv -> 0 <= a -> a < 2 ^ 53 -> 0 < b ->
+    trunc_Q (fdiv a b) = a / b /\ a / b = Z.quot a b.
+Proof. exact float_quotient. Qed.
+
+(* ... so the walk computes the model's thr_cn (first_le / scale_cn) whenever
+   len(thresholds) * ref_copies <= 2^53 -- cnum, ref_copies, ploidy small non-negative integers *)
+Theorem C02_scan_equiv :
+  forall fdiv, fdiv_contract fdiv ->
+  forall v e ts k r, 0 <= r -> 0 < k -> Z.of_nat (length ts) * r <= 2 ^ 53 ->
+    scan_row fdiv v e ts k r = thr_cn v e ts k r.
+Proof. exact scan_equiv_pow. Qed.
+
+(* with the exact quotient (which meets the contract) the two agree for every size *)
+Theorem C02_scan_equiv_exact :
+  fdiv_contract exact_div /\
+  forall v e ts k r, 0 <= r -> 0 < k -> scan_row exact_div v e ts k r = thr_cn v e ts k r.
+Proof. exact scan_equiv_exact_all. Qed.
+
+(* hence the loop as written is the step function of the property *)
+Theorem C02_scan_spec :
+  forall fdiv, fdiv_contract fdiv ->
+  forall v e ts k r, strictly_increasing ts -> 0 <= r -> 0 < k -> Z.of_nat (length ts) * r <= 2 ^ 53 ->
+    scan_row fdiv (Some v) e ts k r = spec_thr v e ts k r.
+Proof. exact scan_spec_pow. Qed.
+
+Example C02_ex_scan :   (* haploid X at ploidy 2, log2 0.3: the loop breaks at cnum = 3, int(3 * 1 / 2) = 1 *)
+  scan_row exact_div (Some (3 # 10)%Q) (5 # 4)%Q lit_thresholds 2 1 = 1.
+Proof. vm_compute. reflexivity. Qed.
+
+(* ------------------------------------------------------------------------------------
+   do_call end to end (Model/Baf.v: do_call_row = purity rewrite, then the method, then the
+   allelic split, composed as in the Python body).  Threshold method without a purity
+   adjustment: the log2 column is untouched, cn is the step function of the property on the
+   row's reference copies (NaN: the reference copies), the baf column is untouched and the
+   allelic split is `alleles` of the integer cn (C02_alleles / C02_missing apply to it). *)
+Theorem C02_do_call_threshold :
+  forall k purity hapx female build ts variants with_baf first row,
+    use_purity purity = None -> strictly_increasing ts -> 0 < k ->
+    exists o, do_call_row MThreshold k purity hapx female build ts variants with_baf first row = Some o /\
+      let r := ref_pure (d_chrom row) k hapx in
+      let cn := match d_log2 row with Some v => spec_thr v (d_e row) ts k r | None => r end in
+      o_log2 o = d_log2 row /\ o_ratio o = None /\ o_cn o = Some cn /\
+      o_baf o = (if with_baf || variants then d_baf row else None) /\
+      o_alleles o = (if with_baf || variants then Some (alleles (inject_Z cn) (d_baf row) cn) else None).
+Proof. exact do_call_threshold_spec. Qed.
+
+(* whatever purity: the scan runs on the (log2, 2^log2) the table holds after the purity
+   step, the baf is rescaled exactly when it came from variants on the purity-adjusted path *)
+Theorem C02_do_call_threshold_any :
+  forall k purity hapx female build ts variants with_baf first row,
+    exists o, do_call_row MThreshold k purity hapx female build ts variants with_baf first row = Some o /\
+      let '(v1, e1) := dc_seen purity row in
+      let cn := thr_cn v1 e1 ts k (ref_pure (d_chrom row) k hapx) in
+      o_log2 o = v1 /\ o_cn o = Some cn /\ o_abs o = Some (inject_Z cn) /\
+      o_baf o = (if with_baf || variants then dc_baf purity variants (d_baf row) else None) /\
+      o_alleles o = (if with_baf || variants
+                     then Some (alleles (inject_Z cn) (dc_baf purity variants (d_baf row)) cn) else None).
+Proof. exact do_call_row_threshold. Qed.
+
+(* a missing log2 yields the neutral reference copy number, with or without purity *)
+Theorem C02_do_call_nan :
+  forall k purity hapx female build ts variants with_baf first row,
+    d_log2 row = None ->
+    exists o, do_call_row MThreshold k purity hapx female build ts variants with_baf first row = Some o /\
+      o_cn o = Some (ref_pure (d_chrom row) k hapx) /\ o_log2 o = None /\ o_ratio o = None.
+Proof. exact do_call_threshold_nan. Qed.
+
+(* With purity < 1 the threshold method sees the RESCALED log2 of C01_rescaled_log2: for
+   every oracle pair with exp2 (log2 y) == y on y > 0, when the row carries v2 = log2 q and
+   e2 = exp2 v2 for the ratio q the C01 path rewrites the row to, the log2 column becomes
+   log2 q, cn is the property's step function at log2 q (above the last threshold:
+   ceil(r * q)), and for a row generated from the mixing model (even ploidy) q is
+   max(n, 0.001*ploidy)/r, the ratio of a pure n-copy sample against the reference. *)
+Theorem C02_purity_then_threshold :
+  forall (log2f exp2f : Q -> Q),
+    (forall y, (0 < y)%Q -> (exp2f (log2f y) == y)%Q) ->
+    forall k purity p hapx female build ts variants with_baf first row v q,
+      use_purity purity = Some p -> d_log2 row = Some v ->
+      let c := row_class build first (d_chrom row) (d_lo row) (d_hi row) in
+      dc_ratio k p hapx female c (d_e row) = Some q ->
+      d_v2 row = log2f q -> d_e2 row = exp2f (d_v2 row) ->
+      exists o, do_call_row MThreshold k purity hapx female build ts variants with_baf first row = Some o /\
+        let rp := ref_pure (d_chrom row) k hapx in
+        o_ratio o = Some q /\ o_log2 o = Some (log2f q) /\ (0 < q)%Q /\ (d_e2 row == q)%Q /\
+        o_cn o = Some (thr_cn (Some (log2f q)) (d_e2 row) ts k rp) /\
+        (strictly_increasing ts -> 0 < k -> o_cn o = Some (spec_thr (log2f q) (d_e2 row) ts k rp)) /\
+        (above_all (log2f q) ts -> o_cn o = Some (Qceiling (inject_Z rp * q))) /\
+        (forall n r x, 0 < k -> Z.even k = true -> (0 < p)%Q -> 0 <= n ->
+           ref_expect k hapx female c = (r, x) -> 0 < r -> (d_e row == mix n p r x)%Q ->
+           (q == spec_rescaled n k r min_abs_val)%Q).
+Proof. exact purity_then_threshold. Qed.
+
+(* the rewritten ratio exists and is positive on every row with a finite log2 *)
+Theorem C02_purity_ratio_defined :
+  forall k p hapx female c e, exists q, dc_ratio k p hapx female c e = Some q /\ (0 < q)%Q.
+Proof. exact dc_ratio_some. Qed.
+
+(* the number of rows never changes, whatever method / purity / baf source *)
+Theorem C02_do_call_rows :
+  forall m k purity hapx female build ts variants with_baf rows out,
+    do_call_model m k purity hapx female build ts variants with_baf rows = DcOk out ->
+    length out = length rows.
+Proof. exact do_call_model_len. Qed.
+
 (* hypotheses are satisfiable / non-trivial instances *)
 Example C02_ex_increasing : strictly_increasing lit_thresholds /\ strictly_increasing default_thresholds.
 Proof. split; [exact lit_increasing | exact defaults_increasing]. Qed.
@@ -157,3 +271,11 @@ Proof. exact fn_rescale_baf_eq. Qed.
 Theorem C02_source_ref_pure :
   forall chrom k hapx, fn_reference_copies_pure chrom k hapx = ref_pure chrom k hapx.
 Proof. exact fn_ref_pure_eq. Qed.
+
+(* the allelic split of do_call as written (upper_baf = ((baf - 0.5).abs() + 0.5).fillna(1.0);
+   cn1 = (absolutes * upper_baf).round().clip(0, cn).astype(int); cn2 = cn - cn1; both NaN
+   where baf is null and cn > 0), read per element, IS Model/Baf.v's `alleles` -- the function
+   C02_alleles / C02_missing speak about -- for every input *)
+Theorem C02_source_alleles :
+  forall (baf : option Q) (a : Q) (cn : Z), fn_alleles baf a cn = alleles a baf cn.
+Proof. exact fn_alleles_eq. Qed.
